@@ -398,12 +398,7 @@ func (o OrderedCollection) Equals(with Item) bool {
 			}
 			return nil
 		})
-		if w.OrderedItems != nil {
-			if !o.OrderedItems.Equals(w.OrderedItems) {
-				result = false
-				return nil
-			}
-		}
+		// the members were compared as part of the collection above
 		return nil
 	})
 	if err != nil {
